@@ -116,18 +116,25 @@ pub struct Config {
 /// spellings and symlinks (resolved by `canonicalize`), hard links to the
 /// same file are detected where the platform exposes file identity.
 fn same_file(a: &Path, b: &Path) -> Result<bool> {
-    if a.canonicalize().map_err(SvgdxError::from_err)?
-        == b.canonicalize().map_err(SvgdxError::from_err)?
-    {
-        return Ok(true);
+    // (a path which can't be resolved - a pipe such as /dev/stdin or the /dev/fd/N of a
+    // process substitution - is not the same file as anything)
+    // Only a regular file can be written over: the terminal (or /dev/null) being both
+    // input and output is fine.
+    if !(a.is_file() && b.is_file()) {
+        return Ok(false);
+    }
+    if let (Ok(ca), Ok(cb)) = (a.canonicalize(), b.canonicalize()) {
+        if ca == cb {
+            return Ok(true);
+        }
     }
     #[cfg(unix)]
     {
         use std::os::unix::fs::MetadataExt;
-        let ma = a.metadata().map_err(SvgdxError::from_err)?;
-        let mb = b.metadata().map_err(SvgdxError::from_err)?;
-        if ma.dev() == mb.dev() && ma.ino() == mb.ino() {
-            return Ok(true);
+        if let (Ok(ma), Ok(mb)) = (a.metadata(), b.metadata()) {
+            if ma.dev() == mb.dev() && ma.ino() == mb.ino() {
+                return Ok(true);
+            }
         }
     }
     Ok(false)
@@ -141,12 +148,19 @@ impl Config {
                 "A non-stdin file must be provided with -w/--watch argument",
             ));
         }
-        if args.file != "-" && args.output != "-" {
+        {
             // Arguably creating this struct shouldn't do any IO, but this is a
             // deliberate UX safety restriction on the CLI which is worth keeping
             // as high-level as possible to keep the lower level API cleaner.
-            let in_path = Path::new(&args.file);
-            let out_path = Path::new(&args.output);
+            // The standard streams can be redirected files too (`svgdx -o f < f`).
+            let in_path = match args.file.as_str() {
+                "-" => Path::new("/dev/stdin"),
+                f => Path::new(f),
+            };
+            let out_path = match args.output.as_str() {
+                "-" => Path::new("/dev/stdout"),
+                f => Path::new(f),
+            };
             if out_path.exists() && same_file(in_path, out_path)? {
                 return Err(SvgdxError::from(
                     "Output path must not refer to the same file as the input file.",
